@@ -6,7 +6,7 @@
     unrepaired variant (fx = false, the tree at the time of writing) is refuted.  Only statements here. *)
 From Coq Require Import List Arith Bool NArith.
 From Jiva Require Import Block.Model Block.Corr Block.Lemmas Block.ProofsWrite Block.ProofsUnit Block.ProofsRead
-     Block.ProofsOps Block.ProofsPreload Block.Refine Block.Proofs.
+     Block.ProofsOps Block.ProofsPreload Block.Refine Block.Proofs Block.OracleProofs.
 Import ListNotations.
 
 (** The executable statement of C06 on observed traces (after every operation, every retained
@@ -37,6 +37,26 @@ Theorem C06_punch_safety : forall d hs ch J b, holes_ok d hs -> keeps d J ->
   top (fl (punched d hs ch)) J b = top (fl d) J b.
 Proof. exact punched_keeps. Qed.
 
+(** A discard (Server.Unmap -> diffDisk.Unmap: every chain file above SnapIndx is punched over the range,
+    partially covered blocks are zeroed there) from any state satisfying the invariant leaves chain, names,
+    attributes and size as they are, no file at or below SnapIndx is touched, and every retained user-created
+    snapshot keeps its image.  (What the live volume reads after a discard is not promised: the specification
+    does not speak about Unmap, so C06_oracle_holds_on_model claims nothing from an unmap onwards; around
+    every unmap the correspondence run evaluates [c06u_step], next theorem.) *)
+Theorem C06_unmap_keeps_user_snapshots : forall K d off len, inv K d ->
+  let d1 := unmap K d off len in
+  nf d1 = nf d /\ nm d1 = nm d /\ usr d1 = usr d /\ rmd d1 = rmd d /\ nblk d1 = nblk d /\ loc d1 = loc d /\
+  (forall i b, i <= snapix d -> top (fl d1) i b = top (fl d) i b) /\
+  (forall i, 1 <= i < nf d -> usr d i = true -> rmd d i = false -> image K d1 i = image K d i).
+Proof. exact unmap_keeps_user_snapshots. Qed.
+
+(** The oracle clause for unmaps (chain and attributes equal, every retained user-created snapshot before is one
+    after with the same image, and conversely) holds for the model's unmap from every state satisfying the
+    invariant, on the observations of the states before and after. *)
+Theorem C06_unmap_oracle_step_holds_on_model : forall K d off len prev cur, inv K d ->
+  Obs K d prev -> Obs K (unmap K d off len) cur -> c06u_step prev (Unmap off len) cur = true.
+Proof. exact c06u_step_model. Qed.
+
 (** F1: on the unrepaired variant the oracle fails (8-block volume, punching on: write blocks 0-1; user
     snapshot; write block 0; automatic snapshot; write blocks 0-1). *)
 Theorem C06_refuted :
@@ -48,3 +68,5 @@ Print Assumptions C06_user_snapshot_immutable.
 Print Assumptions C06_revert_exact.
 Print Assumptions C06_punch_safety.
 Print Assumptions C06_refuted.
+Print Assumptions C06_unmap_keeps_user_snapshots.
+Print Assumptions C06_unmap_oracle_step_holds_on_model.
